@@ -292,7 +292,7 @@ class Inliner:
             body = body[:-1]
             rv = last.value if last.value is not None else ast.Constant(value=None)
             if kind == "expr":
-                tail = [ast.Expr(value=rv)] if not isinstance(rv, ast.Constant) else []
+                tail = [ast.Expr(value=rv)] if not isinstance(rv, (ast.Constant, ast.Name)) else []
             elif kind == "assign":
                 tail = [ast.Assign(targets=st.targets, value=rv)]
             else:
@@ -356,6 +356,21 @@ class Inliner:
                 inl.expanded[callee.qualname] = inl.expanded.get(callee.qualname, 0) + 1
                 out = _Rename({k: v for k, v in b.items()}).visit(copy.deepcopy(e))
                 return ast.copy_location(out, node)
+
+            def visit_Attribute(self, node: ast.Attribute):
+                self.generic_visit(node)
+                # a read of a NEW expression-like property of self (`self._num_slacks`) is replaced by its expression
+                if isinstance(node.ctx, ast.Load) and isinstance(node.value, ast.Name) and node.value.id == "self" and depth <= 3:
+                    cls = inl.prog.enclosing_class(fi)
+                    if cls is not None:
+                        ms = inl.prog.dispatch(cls, node.attr)
+                        if len(ms) == 1 and ms[0].is_property and ms[0].qualname not in inl.known and ms[0] is not fi \
+                                and not any("cached" in d for d in getattr(ms[0], "decorators", [])):
+                            e = inl.expr_value_of(ms[0])
+                            if e is not None:
+                                inl.expanded[ms[0].qualname] = inl.expanded.get(ms[0].qualname, 0) + 1
+                                return ast.copy_location(copy.deepcopy(e), node)
+                return node
 
             def visit_FunctionDef(self, node):
                 return node
